@@ -1328,7 +1328,7 @@ func (l *LineWrapper) processBreakOption(option breakOption, config lineConfig) 
 		} else {
 			return newLineBeforeBreak, candidateRun
 		}
-	} else if config.truncating && candidateLineWidth > config.truncatedMaxWidth {
+	} else if config.truncating && lineLength(candidateRun.advanceBeforeTruncator(l.config.Direction)+l.scratch.candidateAdvance()) > config.truncatedMaxWidth {
 		// The run would not fit if truncated.
 		finalRunRune := candidateRun.Runes.Count + candidateRun.Runes.Offset
 		if finalRunRune == l.breaker.totalRunes && !l.config.TextContinues {
